@@ -1,63 +1,60 @@
-(* C12: run-level consequences — a denied attempt ends the run, the swallowed
-   denial of plain getline (F-C12-1), provenance of every open stream, reuse of
-   open names, availability of standard input. *)
+(* C12: run-level consequences — a denied attempt ends the run (every form, plain
+   getline included since the repair of F-C12-1), an ordinary open error of an operand
+   still gives getline -1, provenance of every open stream, reuse of open names,
+   availability of standard input. *)
 From Verif Require Import Lib.Base Gen.Consts Model.Sandbox Proofs.Sandbox.
 
-(* ---- a denied attempt ends the run (all histories) --------------------------- *)
+(* ---- a denied attempt ends the run (all histories, all request forms) ---------- *)
 
-Theorem denied_attempt_ends_run_partial : forall c e s h1 r h2,
+Theorem denied_attempt_ends_run : forall c e s h1 r h2,
   all_continue (run_log c e s h1) = true ->
-  r <> NextLine ViaGetline ->
   attempts c e (run_state c e s h1) r ->
   exists effs x,
     run_log c e s (h1 ++ r :: h2) = run_log c e s h1 ++ [(effs, Stop x)] /\
     is_sandbox_err x = true /\ forallb is_std effs = true.
 Proof.
-  intros c e s h1 r h2 Hc Hr Ha.
-  destruct (denied_attempt_stops_partial c e _ r Hr Ha) as [x [Ho [Hx Hstd]]].
+  intros c e s h1 r h2 Hc Ha.
+  destruct (denied_attempt_stops c e _ r Ha) as [x [Ho [Hx Hstd]]].
   rewrite run_log_app, Hc. cbn [run_log].
   destruct (io_step c e (run_state c e s h1) r) as [[effs o] s'].
   cbn in Ho, Hstd. subst o. exists effs, x. cbn [is_continue]. auto.
 Qed.
 
-(* the full statement, without the exception *)
-Definition denied_attempt_ends_run_full : Prop :=
-  forall c e s r, attempts c e s r -> denied_stops c e s r.
-
+(* the former witness of F-C12-1 (NoFileReads, operand in1, BEGIN { getline; print > "out" }) *)
 Definition wit_cfg : config := mkConfig false false true false.           (* NoFileReads only *)
 Definition wit_env : env := env_of_tables [OsOk; OsOk] [] true.
 Definition wit_in1 : bytes := [105; 110; 49].                             (* "in1" *)
 Definition wit_out : bytes := [111; 117; 116].                            (* "out" *)
 Definition wit_state : state := init_state [wit_in1] 0.
 
-(* BEGIN { getline } with operand in1 under NoFileReads: nothing is opened, but the run goes on *)
-Theorem denied_attempt_ends_run_refuted : ~ denied_attempt_ends_run_full.
-Proof.
-  intros H. specialize (H wit_cfg wit_env wit_state (NextLine ViaGetline)).
-  assert (Ha : attempts wit_cfg wit_env wit_state (NextLine ViaGetline)) by (vm_compute; reflexivity).
-  destruct (H Ha) as [x [Ho _]]. vm_compute in Ho. discriminate.
-Qed.
-
-(* ... and what follows the swallowed denial is executed: BEGIN { getline; print > "out" } *)
-Theorem swallowed_denial_run_continues :
+(* the run now ends at the getline with the sandbox error; "out" is never opened *)
+Theorem plain_getline_denial_ends_run :
   run_log wit_cfg wit_env wit_state [NextLine ViaGetline; OpenWrite wit_out]
-  = [([], Continue RNeg1); ([CallOpenFile wit_out OTrunc], Continue RNone)].
+  = [([], Stop ENoFileReads)].
 Proof. vm_compute. reflexivity. Qed.
 
-(* exactly what happens in the excepted case: getline yields -1, only standard streams were touched *)
-Theorem getline_operand_denied_swallowed : forall c e s,
+(* the two callers of nextLine treat the denial alike *)
+Theorem plain_getline_denied_like_main_loop : forall c e s,
   attempts c e s (NextLine ViaGetline) ->
-  snd (fst (io_step c e s (NextLine ViaGetline))) = Continue RNeg1 /\
-  forallb is_std (fst (fst (io_step c e s (NextLine ViaGetline)))) = true.
+  snd (fst (io_step c e s (NextLine ViaGetline))) = Stop ENoFileReads /\
+  snd (fst (io_step c e s (NextLine ViaMain))) = Stop ENoFileReads.
 Proof.
   intros c e s Ha.
-  assert (Hm : attempts c e s (NextLine ViaMain)).
-  { unfold attempts in *. cbn [io_step] in *. unfold next_line_via in *.
-    destruct (next_line (permissive c) e s) as [[e1 o1] s1]. destruct o1; exact Ha. }
-  destruct (denied_attempt_stops_partial c e s (NextLine ViaMain) ltac:(discriminate) Hm) as [x [Ho [Hx Hstd]]].
+  destruct (denied_attempt_stops c e s _ Ha) as [x [Ho _]].
   cbn [io_step] in *. unfold next_line_via in *.
-  destruct (next_line c e s) as [[e1 o1] s1]. destruct o1; cbn in *; try discriminate.
-  split; [reflexivity | exact Hstd].
+  destruct (next_line c e s) as [[e1 o1] s1].
+  destruct o1 as [| |y|]; cbn in Ho; try discriminate.
+  destruct y; cbn in Ho; try discriminate. split; reflexivity.
+Qed.
+
+(* only the denial is propagated: a failing open of the operand still makes plain getline
+   yield -1 and the program goes on (POSIX) *)
+Theorem plain_getline_open_error_is_minus1 : forall c e s,
+  snd (fst (next_line c e s)) = NLErr EOpen ->
+  snd (fst (io_step c e s (NextLine ViaGetline))) = Continue RNeg1.
+Proof.
+  intros c e s H. cbn [io_step]. unfold next_line_via.
+  destruct (next_line c e s) as [[e1 o1] s1]. cbn in H. subst o1. reflexivity.
 Qed.
 
 (* ---- stream tables ------------------------------------------------------------ *)
